@@ -135,7 +135,9 @@ func (f *Filter) Filter(subject any) {
 
 	case *structs.IndexedExportedServiceList:
 		for peer, peerServices := range v.Services {
-			v.ResultsFilteredByACLs = f.filterServiceList(&peerServices)
+			if f.filterServiceList(&peerServices) {
+				v.ResultsFilteredByACLs = true
+			}
 			if len(peerServices) == 0 {
 				delete(v.Services, peer)
 			} else {
@@ -285,7 +287,8 @@ func (f *Filter) filterNodeServices(services **structs.NodeServices) bool {
 	for svcName, svc := range (*services).Services {
 		svc.FillAuthzContext(&authzContext)
 
-		if f.allowNode((*services).Node.Node, &authzContext) && f.allowService(svcName, &authzContext) {
+		// The map is keyed by service ID; the read rule applies to the service name.
+		if f.allowNode((*services).Node.Node, &authzContext) && f.allowService(svc.Service, &authzContext) {
 			continue
 		}
 		f.logger.Debug("dropping service from result due to ACLs", "service", svc.CompoundServiceID())
